@@ -1198,6 +1198,14 @@ def store(
     arrays = []
     for s, t, r in zip(sources, targets, regions_list):
         slices = ArraySliceDep(s.chunks)
+        # Storing is a side effect on one particular target object. Name the tasks
+        # after the identity of the target rather than after its current content:
+        # otherwise the same source stored into two targets that happen to look
+        # alike (e.g. two fresh ``np.zeros`` arrays) collapses into a single store.
+        target_token = t if isinstance(t, Delayed) else (type(t).__name__, id(t))
+        name = "store-map-" + tokenize(
+            s.name, target_token, r, lock, return_stored, load_stored
+        )
         arrays.append(
             s.map_blocks(
                 load_store_chunk,  # type: ignore[arg-type]
@@ -1208,7 +1216,7 @@ def store(
                 lock=lock,
                 return_stored=return_stored,
                 load_stored=load_stored,
-                token="store-map",
+                name=name,
                 meta=s._meta,
             )
         )
